@@ -321,3 +321,14 @@ pub proof fn lemma_enc_nonempty(e: Event)
     lemma_lines_nonempty(ev_data(e));
     lemma_fields_len(lines_of(ev_data(e)));
 }
+// ... and neither is its byte form (a data field has at least the six bytes of `data: `)
+pub proof fn lemma_delivered_nonempty(e: Event)
+    ensures delivered_form(e).len() > 0
+{
+    lemma_lines_nonempty(ev_data(e));
+    let ls = lines_of(ev_data(e));
+    reveal(vlit_646174613a20);
+    assert(data_fields_b(ls).len() >= 6) by {
+        assert(data_fields_b(ls) == data_fields_b(ls.drop_last()) + (vlit_646174613a20() + utf8(ls.last()) + vlit_0a()));
+    }
+}
